@@ -212,6 +212,19 @@ def run_kani(pid, part, tier, jobs):
         for n, (k, f) in scan_harnesses(crate_key, pre).items():
             if k in kinds:
                 expected[n] = (k, f)
+    # harnesses of another property's prefix that also decide this one (exact names)
+    extra = part.get("extra_harnesses", [])
+    if extra:
+        allh = {}
+        for f in sorted(glob.glob(os.path.join(KANI_DIR, crate_key, "**", "*.rs"), recursive=True)):
+            src_txt = open(f).read()
+            for n in extra:
+                if re.search(r"\b%s\b" % re.escape(n), src_txt):
+                    allh[n] = f
+        for n in extra:
+            km = KIND_RE.match(n)
+            if km and n in allh and km.group(2) in kinds:
+                expected[n] = (km.group(2), allh[n])
     out = {"expected": expected, "results": {}, "undecided": [], "crate": crate_dir, "wall_s": 0.0,
            "cmd": "", "tools": {}, "transform": []}
     root = repo_root(part)
@@ -242,6 +255,9 @@ def run_kani(pid, part, tier, jobs):
     for pre in prefixes:
         for k in kinds:
             filt += ["--harness", "%s%s_" % (pre, k)]
+    for n in extra:
+        if n in expected:
+            filt += ["--harness", n]
     per_harness_to = part.get("harness_timeout_thorough" if tier == "thorough" else "harness_timeout", 300 if tier == "quick" else 3600)
     if os.environ.get("VERIF_HARNESS_TIMEOUT"):
         per_harness_to = int(os.environ["VERIF_HARNESS_TIMEOUT"])
